@@ -141,11 +141,11 @@ fn run_wellformed(ctx: &mut Ctx) {
 
 // ---- single-token corruption ---------------------------------------------------------
 
-const TOKENS: &[&[u8]] = &[
+pub const TOKENS: &[&[u8]] = &[
     b"{", b"}", b"[", b"]", b",", b":", b"\"", b"\\", b"\\u", b"\\u{", b"}", b"0", b"1", b"9", b"-", b"+", b".", b"e", b"E",
     b"true", b"false", b"null", b" ", b"\t", b"\n", b"\r", b"\x0C", b"\x0B", b"\\n", b"\\t", b"\\r", b"\\x0C", b"\\x0c", b"\\f",
     b"\"a\"", b"\"\"", b"D800", b"DC00", b"d83d", b"dc8e", b"00e9", b"\xC3", b"\xA9", b"\xF0\x9F\x92\x8E", b"\xFF", b"\x00",
-    b"\\\"", b"\\\\", b"\\/", b"\\b", b"\\q", b"\\u0041", b"\\uD800", b"\\uDC00", b"\\u{0041}", b"1e5", b"-0", b"1.5", b"01",
+    b"\\\"", b"\\\\", b"\\/", b"\\b", b"\\q", b"\\u0041", b"\\uD800", b"\\uDC00", b"\\u{0041}", b"\\u{0041", b"\\u{D83D}\\u{DE00}", b"1e5", b"-0", b"1.5", b"01",
     b"a", b"/", b"nul", b"tru", b"NaN", b"Infinity", b"'", b"//", b"/*", b"\xEF\xBB\xBF",
 ];
 
